@@ -1,6 +1,6 @@
 (* C02 — every plan segments the record safely and completely (statements only; proofs in SchedThms.v) *)
 From Coq Require Import ZArith List Reals Lra Lia.
-From SK Require Import Arith Sched SchedThms.
+From SK Require Import Arith Sched SchedThms NewLtf.
 Import ListNotations.
 
 (* iterative LTF scheduler (and LPSD = LTF with bmin=1, Lmin=1), for every admissible configuration, every oracle
@@ -22,6 +22,12 @@ Theorem C02_vectorized_plan_safe : forall sq fuel (c : cfg RA) grid bs, admissib
   Forall (bin_safe (starts_vec RA) c) bs /\ ((exists g, In g grid /\ (fmin_vec RA c <= g)%R) -> bs <> []).
 Proof. exact vec_plan_safe. Qed.
 Print Assumptions C02_vectorized_plan_safe.
+
+(* three-stage scheduler new_ltf_plan, for every oracle value of x**0.5, exp and log, every Jdes and fuel *)
+Theorem C02_new_ltf_plan_safe : forall ph ex lg fuel (c : cfg RA) J bs, admissible c ->
+  new_bins RA ph ex lg fuel c J = Ok bs -> bs <> [] /\ Forall (bin_safe (starts_vec RA) c) bs.
+Proof. exact new_plan_safe. Qed.
+Print Assumptions C02_new_ltf_plan_safe.
 
 (* a safe bin passes the analyzer's plan validation, so plan() does not raise *)
 Theorem C02_safe_bin_validates : forall (c : cfg RA) l k d, bin_int_ok c l k -> starts_ok (cN c) l k d ->
